@@ -179,7 +179,10 @@ func TestDHAgreement(t *testing.T) {
 }
 
 // stream byte i of direction d
-func sb(d byte, i int) byte { h := sha256.Sum256([]byte{d, byte(i), byte(i >> 8), byte(i >> 16)}); return h[0] }
+func sb(d byte, i int) byte {
+	h := sha256.Sum256([]byte{d, byte(i), byte(i >> 8), byte(i >> 16)})
+	return h[0]
+}
 
 func stream(d byte, off, n int) []byte {
 	b := make([]byte, n)
